@@ -20,7 +20,7 @@ def trees():
 def run(ctx):
     binary = build.xcp()
     quick = ctx.tier == "quick"
-    r = dataplane.model_check(4 if quick else 6)
+    r = dataplane.model_check(5 if quick else 6)
     ctx.tlc("XcpData: NeverClones, AlwaysClones, CloneBeforeData, AutoFallsBack, OneClone", r)
     if r.violated:
         ctx.model_violation("MC_Data", r)
